@@ -182,6 +182,20 @@ func (db *DB) FindInBatches(dest interface{}, batchSize int, fc func(tx *DB, bat
 		batch        int
 	)
 
+	// conditions joined by OR stay one unit: the primary key cursor of the later batches applies to all of them
+	if c, ok := tx.Statement.Clauses["WHERE"]; ok {
+		if where, ok := c.Expression.(clause.Where); ok && len(where.Exprs) > 1 {
+			for _, expr := range where.Exprs {
+				if _, ok := expr.(clause.OrConditions); ok {
+					where.Exprs = []clause.Expression{clause.And(where.Exprs...)}
+					c.Expression = where
+					tx.Statement.Clauses["WHERE"] = c
+					break
+				}
+			}
+		}
+	}
+
 	// user specified offset or limit
 	var totalSize int
 	if c, ok := tx.Statement.Clauses["LIMIT"]; ok {
